@@ -841,9 +841,10 @@ def gen_composed(rnd, dyn=None):
     k = rnd.choice([2, 2, 3])
     nodes, edges = rand_net(rnd, 3, 7)
     procs = []
+    names = rnd.sample('abc', 3)          # instance names (and dict keys) in no particular order
     for i in range(k):
         cls = rnd.choice([c for c in NAMEABLE if c != 'SIR_VariableInfection' or all(q['cls'] != c for q in procs)])   # the model carries one infectivity table
-        name = 'abc'[i]
+        name = names[i]
         plain = shipped_params(cls, rnd)
         params = {}
         how = {}
@@ -1162,7 +1163,7 @@ def gen_rerun(rnd, classes=None, dyn=None):
 
 
 def gen_genlimit(rnd):
-    return dict(mode='genlimit', limit=rnd.choice([None, 0, 1, 2, 3, 5]), asks=rnd.randint(0, 8), how=[rnd.choice(['generate', 'next']) for _ in range(8)],
+    return dict(mode='genlimit', limit=rnd.choice([None, 0, 1, 2, 3, 5]), asks=rnd.randint(0, 8), how=[rnd.choice(['generate', 'next', 'fresh', 'loop']) for _ in range(8)],
                 fixed=rnd.random() < 0.5, seed=0, dyn='sto', procs=[])
 
 
@@ -1177,9 +1178,14 @@ def run_genlimit(spec):
         def _generate(self, params): g = nx.path_graph(3); return g
     gen = FixedNetwork(proto, limit=spec['limit']) if spec['fixed'] else G(limit=spec['limit'])
     for i in range(spec['asks']):
-        if spec['how'][i] == 'generate': g = gen.generate()
+        h = spec['how'][i]
+        if h == 'generate': g = gen.generate()
+        elif h == 'loop':                     # a for-loop over the generator left after its first network
+            g = None
+            for g_ in gen:
+                g = g_; break
         else:
-            try: g = next(gen)
+            try: g = next(iter(gen)) if h == 'fresh' else next(gen)          # ('fresh': a new iterator every time, never run to its end)
             except StopIteration: g = None
         if g is not None: made.append(g)
     viol = []
